@@ -512,6 +512,11 @@ def run(ck):
             dict(vec[0][3]).get("end") == V("end")
         ck.judge(bool(ok), "C16.2", short(sg), w, "a generator vectorises with its own resolution and blurs with its own radius",
                  found=T.show(v)[:200])
+    ck.clause("C16.8", "a peak keeps the score, height and position it is given: seeds are ranked by the score as computed (a rounded or "
+                       "clamped score makes near-equal peaks tie, and ties fall back to enumeration order; as C12.7)")
+    from .c12 import stored_unconverted as _su
+    _su(_RV16(ck, {"C12.7": "C16.8"}, only_files=("src/correlation/peak.py",)), "C12.7")
+    ck.ok("C16.8", "Peak:stores", "src/correlation/peak.py", "constructor stores inspected", "")
     blur_keeps_length(ck)
     sequence_is_blurred_vectorisation(ck)
 
